@@ -131,7 +131,7 @@ def build_corpus(fam, tier, seed, grammars=None):
     n = 0
     with open(os.path.join(cdir, "cases.tsv"), "w") as f:
         for g in gs:
-            if g.meta.get("flags", "-").find("nocompile") >= 0:
+            if g.meta.get("flags", "-").find("nocompile") >= 0 or g.meta.get("flags", "-").find("typesonly") >= 0:
                 continue
             for s in all_inputs(g):
                 f.write("%s\t%s\n" % (g.id, s.encode("utf-8").hex()))
